@@ -239,6 +239,21 @@ def generate(tier, rng):
         texts.append(_lua_text(rng, size))
     for i in range(0, len(texts), 25):
         yield _texts('lua', texts[i:i + 25])
+    # texts of one and the same length, compressed one after the other while nothing keeps the earlier text alive:
+    # CPython then hands the next text the memory (and id()) of the one before - the result must depend on the
+    # text's bytes only, never on the identity of the object that held them
+    for size in (120, 400, 2000):
+        base = _lua_text(rng, size)[:size].ljust(size, b' ')
+        same = []
+        for _ in range(12 if quick else 60):
+            b = bytearray(base)
+            for _ in range(rng.randrange(1, 6)):
+                i = rng.randrange(0, size - 8)
+                j = rng.randrange(0, size - 8)
+                b[i:i + 8], b[j:j + 8] = b[j:j + 8], b[i:i + 8]
+            b[rng.randrange(size)] = rng.choice(b'abcxyz=()')
+            same.append(bytes(b))
+        yield _texts('same-length', same)
     # random bytes (incompressible, NULs inside)
     yield _texts('random', [rng.randbytes(rng.choice([1, 2, 7, 30, 300, 1000])) for _ in range(40 if quick else 400)])
     # 3. window edge: a block of length L repeated at distance d
@@ -399,6 +414,7 @@ def run_impl(case):
                         bl, bo = compress._find_repeatable_block(t, p)
                         o['frb'].append([p, bl, bo])
             out.append(o)
+            del t                      # nothing keeps the text alive: the next one may get its memory
     elif case['k'] == 'streams':
         for it in case['items']:
             n = it['n']
